@@ -9,7 +9,7 @@ TJ = 'openmdao/core/total_jac.py'
 
 
 def tj_self(mode):
-    return Obj('_TotalJacInfo', comm=Obj('Comm', size=1), J=Arr('nr', 'nc'), jac_scratch=None,
+    return Obj('_TotalJacInfo', comm=Obj('Comm', size=1), J=Arr('nr', 'nc'), jac_scratch=None, get_remote=True,
                simul_coloring=Obj('Coloring'),
                sol2jac_map=DictT({mode: TupleT(Arr('ns', dtype='int'), Arr('ns', dtype='int'), None)}),
                output_vec=DictT({mode: Obj('DefaultVector', _data=Arr('nd'), _under_complex_step=False)}))
@@ -22,8 +22,10 @@ contract(TJ + '::_TotalJacInfo.simul_coloring_jac_setter', ['C03'],
                    'all(0 <= self.sol2jac_map["fwd"][0][k] and self.sol2jac_map["fwd"][0][k] < nd for k in range(ns))'],
          ensures=[
              # entries (rows[k], i) get the solution entry of THEIR row; everything else is untouched
-             'all(self.J[ghost("rows")[k], inds[0]] == old(self.output_vec["fwd"]._data[self.sol2jac_map["fwd"][0][ghost("rows")[k]]]) for k in range(len(ghost("rows"))))',
-             'all(all(implies(c != inds[0] or not any(ghost("rows")[k] == r for k in range(len(ghost("rows")))), self.J[r, c] == old(self.J[r, c])) for c in range(nc)) for r in range(nr))'],
+             # (the rows to write are the ones the colouring's row/column map lists: a body that never consults the map
+             #  leaves ghost("rows") unset and fails these clauses)
+             '(all(self.J[ghost("rows")[k], inds[0]] == old(self.output_vec["fwd"]._data[self.sol2jac_map["fwd"][0][ghost("rows")[k]]]) for k in range(len(ghost("rows"))))) if ghost("rows") is not None else False',
+             '(all(all(implies(c != inds[0] or not any(ghost("rows")[k] == r for k in range(len(ghost("rows")))), self.J[r, c] == old(self.J[r, c])) for c in range(nc)) for r in range(nr))) if ghost("rows") is not None else False'],
          modifies=['self.J'], inline={'asarray'},
          ghost_init={'rows': None},
          assumed={'self.simul_coloring.get_row_col_map': Assumed(returns=Seq('nc', Arr('m', dtype='int')), ghost=lambda it, env, res: it.ctx.ghost.__setitem__('rows', res.elem(env['inds'][0]) if hasattr(res, 'elem') else None),
@@ -40,8 +42,8 @@ contract(TJ + '::_TotalJacInfo.simul_coloring_jac_setter', ['C03'],
          requires=['inds[0] < nr', 'ns == nc',
                    'all(0 <= self.sol2jac_map["rev"][0][k] and self.sol2jac_map["rev"][0][k] < nd for k in range(ns))'],
          ensures=[
-             'all(self.J[inds[0], ghost("rows")[k]] == old(self.output_vec["rev"]._data[self.sol2jac_map["rev"][0][ghost("rows")[k]]]) for k in range(len(ghost("rows"))))',
-             'all(all(implies(r != inds[0] or not any(ghost("rows")[k] == c for k in range(len(ghost("rows")))), self.J[r, c] == old(self.J[r, c])) for c in range(nc)) for r in range(nr))'],
+             '(all(self.J[inds[0], ghost("rows")[k]] == old(self.output_vec["rev"]._data[self.sol2jac_map["rev"][0][ghost("rows")[k]]]) for k in range(len(ghost("rows"))))) if ghost("rows") is not None else False',
+             '(all(all(implies(r != inds[0] or not any(ghost("rows")[k] == c for k in range(len(ghost("rows")))), self.J[r, c] == old(self.J[r, c])) for c in range(nc)) for r in range(nr))) if ghost("rows") is not None else False'],
          modifies=['self.J'], inline={'asarray'},
          ghost_init={'rows': None},
          assumed={'self.simul_coloring.get_row_col_map': Assumed(returns=Seq('nr', Arr('m', dtype='int')), ghost=lambda it, env, res: it.ctx.ghost.__setitem__('rows', res.elem(env['inds'][0]) if hasattr(res, 'elem') else None),
